@@ -279,6 +279,10 @@ pub struct FileCase {
     pub widths: Vec<usize>, // input, then one per linear layer
     pub markers: Vec<u8>,   // after each linear: 0 none, 1 relu, 2 hard_tanh, 3 hard_sigmoid; m >= 4: two markers (m/4, m%4)
     pub pat: u8,
+    /// number of digits of the entry indices (the shipped files use 3; the dialect accepts any uniform width)
+    pub name_width: usize,
+    /// weight matrices stored column-major (numpy writes `fortran_order: True` for such arrays, e.g. `W.T`)
+    pub fortran: bool,
 }
 
 pub fn file_cases(tier: Tier) -> Vec<FileCase> {
@@ -292,7 +296,7 @@ pub fn file_cases(tier: Tier) -> Vec<FileCase> {
             loop {
                 let pats: &[u8] = if tier == Tier::Quick && nl == 3 { &[0] } else { &[0, 1] };
                 for p in pats {
-                    v.push(FileCase { widths: w.clone(), markers: mk.clone(), pat: *p });
+                    v.push(FileCase { widths: w.clone(), markers: mk.clone(), pat: *p, name_width: 3, fortran: false });
                 }
                 let mut k = 0;
                 loop { if k == nl { break; } mk[k] += 1; if mk[k] < 4 { break; } mk[k] = 0; k += 1; }
@@ -311,10 +315,10 @@ pub fn file_cases(tier: Tier) -> Vec<FileCase> {
                     let widths: Vec<usize> = (0..=nl).map(|i| 1 + (i + w) % 3).collect();
                     let mut markers = vec![0u8; nl];
                     markers[0] = first * 4 + second;
-                    v.push(FileCase { widths: widths.clone(), markers: markers.clone(), pat: w as u8 });
+                    v.push(FileCase { widths: widths.clone(), markers: markers.clone(), pat: w as u8, name_width: 3, fortran: false });
                     if nl == 2 {
                         markers[1] = second * 4 + first;
-                        v.push(FileCase { widths, markers, pat: w as u8 });
+                        v.push(FileCase { widths, markers, pat: w as u8, name_width: 3, fortran: false });
                     }
                 }
             }
@@ -325,16 +329,34 @@ pub fn file_cases(tier: Tier) -> Vec<FileCase> {
         for s in 0..4u8 {
             let widths: Vec<usize> = (0..=nl).map(|i| 1 + (i + s as usize) % 3).collect();
             let markers: Vec<u8> = (0..nl).map(|i| ((i as u8 + s) % 3) + 1).collect();
-            v.push(FileCase { widths, markers, pat: s });
+            v.push(FileCase { widths, markers, pat: s, name_width: 3, fortran: false });
         }
     }
+    // every 3rd file once more with another index width and / or column-major weight entries
+    let extra: Vec<FileCase> = v
+        .iter()
+        .enumerate()
+        .filter(|(i, _)| i % 3 == 0)
+        .map(|(i, c)| {
+            let entries = 1 + c.markers.iter().map(|m| 1 + if *m >= 4 { 2 } else if *m != 0 { 1 } else { 0 }).sum::<usize>();
+            let mut w = [1usize, 2, 4, 3][(i / 3) % 4];
+            if w == 1 && entries > 10 {
+                w = 2;
+            }
+            let mut c = c.clone();
+            c.name_width = w;
+            c.fortran = (i / 3) % 2 == 0 || w == 3;
+            c
+        })
+        .collect();
+    v.extend(extra);
     v
 }
 
 pub fn run_file_case(idx: usize, c: &FileCase) -> CaseOut {
     use ndarray_npy::NpzWriter;
     let mut out = CaseOut::default();
-    let rec = || json!({"widths": c.widths, "markers(0=none,1=relu,2=hard_tanh,3=hard_sigmoid)": c.markers, "weight_pattern": c.pat});
+    let rec = || json!({"widths": c.widths, "markers(0=none,1=relu,2=hard_tanh,3=hard_sigmoid)": c.markers, "weight_pattern": c.pat, "index_digits": c.name_width, "column_major_weights": c.fortran});
     let dir = root().join(".work").join("c18");
     let _ = std::fs::create_dir_all(&dir);
     let path = dir.join(format!("net-{}-{}.npz", std::process::id(), idx));
@@ -348,21 +370,23 @@ pub fn run_file_case(idx: usize, c: &FileCase) -> CaseOut {
         for l in 0..c.markers.len() {
             let a = weights(c.widths[l + 1], c.widths[l], c.pat.wrapping_add(l as u8));
             let r = a.to_real();
-            entries.push((format!("{:03}.linear", counter), Some((r.mat.clone(), r.bias.clone()))));
+            let r = if c.fortran { a.to_real_f() } else { r };
+            entries.push((format!("{:0w$}.linear", counter, w = c.name_width), Some((r.mat.clone(), r.bias.clone()))));
             expected.push(("linear".into(), Some(a), 0));
             counter += 1;
             let m = c.markers[l];
             let ms: Vec<u8> = if m >= 4 { vec![m / 4, m % 4] } else if m != 0 { vec![m] } else { vec![] };
             for m in ms {
                 let name = ["", "relu", "hard_tanh", "hard_sigmoid"][m as usize];
-                entries.push((format!("{:03}.{}", counter, name), None));
+                entries.push((format!("{:0w$}.{}", counter, name, w = c.name_width), None));
                 for i in 0..c.widths[l + 1] {
                     expected.push((name.to_string(), None, i));
                 }
                 counter += 1;
             }
         }
-        w.add_array("000.layers.npy", &Array1::<f64>::zeros(1)).unwrap();
+        // (the "layers" entry sorts first whatever its own width: all other indices are >= 0 with the file's width)
+        w.add_array(format!("{:0w$}.layers.npy", 0, w = c.name_width), &Array1::<f64>::zeros(1)).unwrap();
         for (name, data) in entries.iter().rev() {
             match data {
                 Some((m, b)) => {
